@@ -265,7 +265,8 @@ func (c *Ctx) ruleCodegenFlow(rule string) {
 		}
 		ok, why := fieldType != nil, "the Fprintf that prints a field was not found"
 		nID, nDeclared, nTID := 0, 0, 0
-		declaredGuarded, rawGuarded := true, true
+		declaredGuarded, rawGuarded, rawNotKeyword := true, true, true
+		_ = declaredGuarded
 		if ok {
 			why = ""
 			seen := map[ssa.Value]bool{}
@@ -291,6 +292,19 @@ func (c *Ctx) ruleCodegenFlow(rule string) {
 							if lk, isLk := ex.Tuple.(*ssa.Lookup); isLk && lk.CommaOk && strings.HasSuffix(g.ValPath(lk.X), ".Objects") && strings.HasSuffix(g.ValPath(lk.Index), ".Type.Id") {
 								return true
 							}
+						}
+					}
+					return false
+				}
+				keywordOutcome := func(want bool) bool {
+					conds := core.CondsAt(at)
+					if to != nil {
+						conds = append(conds, edgeCond(at, to)...)
+					}
+					for _, cond := range conds {
+						if kc, isCall := cond.V.(*ssa.Call); isCall && cond.True == want && core.StaticCalleeName(&kc.Call) == "go/token.IsKeyword" &&
+							len(kc.Call.Args) == 1 && strings.HasSuffix(g.ValPath(kc.Call.Args[0]), ".Type.Id") {
+							return true
 						}
 					}
 					return false
@@ -324,6 +338,9 @@ func (c *Ctx) ruleCodegenFlow(rule string) {
 					if !declaredOutcome(false) {
 						rawGuarded = false
 					}
+					if !keywordOutcome(false) {
+						rawNotKeyword = false
+					}
 					return
 				}
 				ok, why = false, "the field type can be "+g.ValPath(v)+", which is neither the referenced ID nor the mapped type ID"
@@ -344,11 +361,115 @@ func (c *Ctx) ruleCodegenFlow(rule string) {
 		switch {
 		case nameFn == nil:
 			c.R.Ok(rule, k3, g.Pos(fn.Pos()), "name of a referenced object", "objects are declared under their ID as it is")
-		case nDeclared > 0 && declaredGuarded && (nID == 0 || rawGuarded):
-			c.R.Ok(rule, k3, g.Pos(fn.Pos()), "name of a referenced object", "where the referenced ID is found in the schema's object table the field type is "+nameFn.Name()+"(ID), the function that names the declaration; the ID as it is only where it is not found")
+		case nDeclared > 0 && (nID == 0 || rawGuarded):
+			// (the declared name may be used for other IDs as well - one that is a Go keyword; what matters is that the
+			// raw ID is never used for a declared object)
+			c.R.Ok(rule, k3, g.Pos(fn.Pos()), "name of a referenced object", "the field type is the ID as it is only where the ID was not found in the schema's object table; everywhere else it is "+nameFn.Name()+"(ID), the function that names the declaration")
 		default:
 			c.R.Bad(rule, k3, g.Pos(fn.Pos()), "a reference to an object of the schema is typed with the raw ID, not with the name the object is declared under",
 				"the struct is declared as "+nameFn.Name()+"(id) but referred to as id: `pod` is declared `type Pod struct` and referenced as the undeclared `pod`; for an object named like a Go keyword (`map`, `type`, `range`) the output does not parse and the generator panics")
+		}
+		// a referenced ID that is not declared here (a reference into another namespace) is emitted as it is - unless it is
+		// a Go keyword, which cannot stand where a type belongs: format.Source refuses the output and the generator panics
+		k4 := key(rule, "main.mustGenerateTypeDef", "a referenced ID that is a Go keyword is never emitted as it is")
+		switch {
+		case !ok:
+			// reported above
+		case nID == 0:
+			c.R.Ok(rule, k4, g.Pos(fn.Pos()), "name of a referenced object", "no field type is a referenced ID as it is")
+		case rawNotKeyword:
+			c.R.Ok(rule, k4, g.Pos(fn.Pos()), "name of a referenced object", "the ID as it is is used only where go/token.IsKeyword(ID) was found false")
+		default:
+			c.R.Bad(rule, k4, g.Pos(fn.Pos()), "a referenced ID can be emitted as it is although it is a Go keyword",
+				"a reference to an object that is not declared in this file and is called `range`, `type` or `map` there puts the bare keyword where a type belongs: format.Source fails and the generator panics")
+		}
+		// the declared name changes the first letter of the ID and nothing else: a case mapping applied to the whole ID
+		// (title-casing starts a new word after every ideograph, full case mapping turns one letter into several) makes
+		// different IDs collapse into one name
+		if nameFn != nil {
+			k6 := key(rule, g.Key(nameFn), "the declared name is not made by a case mapping of the whole ID")
+			bad := ""
+			for _, b := range nameFn.Blocks {
+				for _, in := range b.Instrs {
+					pc, isCall := in.(*ssa.Call)
+					if !isCall || len(nameFn.Params) == 0 {
+						continue
+					}
+					name := core.StaticCalleeName(&pc.Call)
+					if pc.Call.IsInvoke() {
+						name = pc.Call.Method.FullName()
+					}
+					mapsCase := strings.HasPrefix(name, "strings.To") || name == "strings.Title" || strings.Contains(name, "golang.org/x/text/cases") || strings.HasPrefix(name, "bytes.To") || name == "bytes.Title"
+					if !mapsCase {
+						continue
+					}
+					for _, a := range pc.Call.Args {
+						if core.Unwrap(a) == ssa.Value(nameFn.Params[0]) {
+							bad = g.InstrPos(pc) + " (" + name + ")"
+						}
+					}
+				}
+			}
+			if bad == "" {
+				c.R.Ok(rule, k6, g.Pos(nameFn.Pos()), "declared name of an object or property", "no case-mapping function of strings, bytes or x/text/cases receives the whole ID")
+			} else {
+				c.R.Bad(rule, k6, bad, "the declared name is made by a case mapping of the whole ID",
+					"IDs that differ only behind the first letter collapse into one Go name (a漢b and a漢B, stb and ﬆb): two structs of one name, two fields of one name, a reference that names the wrong struct")
+			}
+		}
+		// what the generator prints goes through format.Source: an argument of the command line (a file name, the ignore
+		// argument) printed into it must be quoted, or a line feed, a byte order mark or invalid UTF-8 in it breaks the source
+		{
+			k5 := key(rule, "main.mustGenerateTypeDef", "command-line arguments are printed into the source only quoted")
+			bad, n := "", 0
+			fromArgs := func(v ssa.Value) bool {
+				return derivedFrom(v, func(x ssa.Value) bool {
+					if u, isLoad := x.(*ssa.UnOp); isLoad {
+						if gl, isGlobal := u.X.(*ssa.Global); isGlobal && gl.Pkg != nil && gl.Pkg.Pkg.Path() == "os" && gl.Name() == "Args" {
+							return true
+						}
+					}
+					return false
+				})
+			}
+			for _, b := range fn.Blocks {
+				for _, in := range b.Instrs {
+					pc, isCall := in.(*ssa.Call)
+					if !isCall {
+						continue
+					}
+					name := core.StaticCalleeName(&pc.Call)
+					switch {
+					case strings.HasSuffix(name, "fmt.Fprintf") && len(pc.Call.Args) >= 3:
+						format, isConst := core.ConstString(pc.Call.Args[1])
+						args := variadicElems(pc.Call.Args[2])
+						verbs := formatVerbs(format)
+						for i, a := range args {
+							if a == nil || !fromArgs(a) {
+								continue
+							}
+							n++
+							if !isConst || i >= len(verbs) || verbs[i] != 'q' {
+								bad = g.InstrPos(pc)
+							}
+						}
+					case (strings.HasSuffix(name, "fmt.Fprint") || strings.HasSuffix(name, "fmt.Fprintln")) && len(pc.Call.Args) >= 2:
+						for _, a := range variadicElems(pc.Call.Args[1]) {
+							if a != nil && fromArgs(a) {
+								n++
+								bad = g.InstrPos(pc)
+							}
+						}
+					}
+				}
+			}
+			switch {
+			case bad != "":
+				c.R.Bad(rule, k5, bad, "a command-line argument is printed into the generated source as it is",
+					"a schema file name or an ignore argument with a line feed, a byte order mark or bytes that are not UTF-8 ends the header comment or makes the source illegal: format.Source fails and the generator panics on a valid schema")
+			default:
+				c.R.Ok(rule, k5, g.Pos(fn.Pos()), "header comment", sprintf("%d printed value(s) derived from os.Args, each under the verb %%q", n))
+			}
 		}
 		// the type mapping applies to type IDs only: a referenced object's ID must not go through it
 		k2 := key(rule, "main.mustGenerateTypeDef", "parseType is never applied to a referenced object's ID")
@@ -766,4 +887,30 @@ func (c *Ctx) ruleYamlNil(rule string) {
 	if n == 0 {
 		c.R.Ok(rule, key(rule, "generator", "no pointer-valued decoded maps"), "-", "decoded maps", "no field is accessed through a pointer read from a map")
 	}
+}
+
+// formatVerbs: the verbs of a Printf format in argument order (flags, width and precision skipped; %% is no verb; an
+// explicit argument index or a * makes the mapping unknown: nil).
+func formatVerbs(format string) []byte {
+	var out []byte
+	for i := 0; i < len(format); i++ {
+		if format[i] != '%' {
+			continue
+		}
+		i++
+		for i < len(format) && strings.ContainsRune("+-# 0123456789.", rune(format[i])) {
+			i++
+		}
+		if i >= len(format) {
+			break
+		}
+		switch format[i] {
+		case '%':
+		case '[', '*':
+			return nil
+		default:
+			out = append(out, format[i])
+		}
+	}
+	return out
 }
